@@ -1,12 +1,46 @@
 (* C18 property theorems: the flow hash map refines a finite map with additive updates.
-   `reach hash m`: m is reached from New(hint) by any sequence of Set / SetOrUpdate / Merge(src) calls
-   whose model result is Ok, where src is any state reachable the same way under its own hash function
-   (Abs.v).  `hash` is universally quantified: the statements hold for every hash function. *)
+   `run hash hint ops`: the model run of an operation history (Set / SetOrUpdate / Merge of a source built by
+   its own history under its own hash function / Clear) from New(hint); `spec_run ops`: the same history on
+   a finite map (ProofsN.v).  `reach hash m`: m is a state of some such history (Abs.v).
+   `hash` is universally quantified: the statements hold for every hash function. *)
 From stdpp Require Import list gmap.
 From Coq Require Import NArith.
 From GoProbe.Base Require Import CorrLib.
-From GoProbe.C18 Require Import Model Abs ProofsI ProofsJ.
+From GoProbe.C18 Require Import Model Abs ProofsI ProofsJ ProofsN.
 
+(* MAIN THEOREM (unconditional): every history runs to Ok - no Go panic (index out of range, nil
+   dereference, "bad map state"), the `goto again` loop ends within its bound - and the resulting table is
+   the abstract map of the history: lookups, size, iteration (every entry exactly once, also mid-growth)
+   and Flatten agree with it. *)
+Theorem c18_refines : forall hash hint ops,
+  exists m, run hash hint ops = Ok m /\ reach hash m /\
+    abs m = spec_run ops /\
+    (forall k, get hash m k = spec_run ops !! k) /\
+    len m = size (spec_run ops) /\
+    iter hash m ≡ₚ map_to_list (spec_run ops) /\
+    flatten hash m = Ok (iter hash m).
+Proof. exact t_refines. Qed.
+Print Assumptions c18_refines.
+
+(* totality of the single operations on every reachable state *)
+Theorem c18_total : forall hash m, reach hash m ->
+  (forall k v, exists m', set hash m k v = Ok m') /\
+  (forall k d, exists m', set_or_update hash m k d = Ok m') /\
+  (forall hs s, reach hs s -> exists m', merge hash hs m s = Ok m').
+Proof.
+  intros hash m Hr. split; [intros; by apply t_set_total|]. split; [intros; by apply t_upd_total|].
+  intros; by apply t_merge_total.
+Qed.
+Print Assumptions c18_total.
+
+(* Clear leaves a usable empty map *)
+Theorem c18_clear : forall hash m, reach hash m ->
+  reach hash (clear m) /\ abs (clear m) = ∅ /\ len (clear m) = 0.
+Proof. intros hash m Hr. split; [by apply r_clear|by apply (t_clear hash)]. Qed.
+Print Assumptions c18_clear.
+
+(* ---- the single steps (corollaries of the same development; with c18_total their premise
+   `= Ok m'` is always satisfiable) *)
 (* Set overwrites / creates exactly the binding of k *)
 Theorem c18_set : forall hash m k v m',
   reach hash m -> set hash m k v = Ok m' -> abs m' = <[k := v]> (abs m).
@@ -89,3 +123,9 @@ Proof.
   split; [vm_compute; reflexivity|]. split; [vm_compute; reflexivity|]. split; [vm_compute; reflexivity|].
   split; [vm_compute; reflexivity|]. split; [vm_compute; reflexivity|]. split; vm_compute; reflexivity.
 Qed.
+
+Example c18_example_run :
+  let ops := [OSet 1%N (V 1 1 1 1); OMerge ex_hash 9 [OUpd 1%N (V 2 0 0 0); OUpd 2%N (V 5 5 5 5)];
+              OUpd 2%N (V 1 0 0 0); OClear; OUpd 3%N (V 7 7 7 7); OSet 4%N (V 0 0 0 0)] in
+  exists m, run ex_hash 0 ops = Ok m /\ len m = 2 /\ get ex_hash m 3%N = Some (V 7 7 7 7) /\ get ex_hash m 1%N = None.
+Proof. eexists. split; [vm_compute; reflexivity|]. vm_compute. repeat split; reflexivity. Qed.
